@@ -1308,6 +1308,7 @@ Fixpoint simpleB_b (fuel : nat) (inl inr : bool) (st : stmt) : bool :=
       | SRepeat (LAll x w) a => plain_with_opt mt w && simpleB_b f true false a
       | SRepeat (LGroups x w) a => plain_with_opt mt w && simpleB_b f true false a
       | SRepeat (LLocations x w) a => plain_with_opt mt w && simpleB_b f true false a
+      | SRepeat (LIn srcs x w) a => forallb (plain_src mt) srcs && plain_with_opt mt w && simpleB_b f true false a
       | _ => false
       end
   end.
@@ -1342,6 +1343,8 @@ Proof.
     + apply andb_true_iff in H. destruct H as [Hw Ha]. apply (B_lights rt mt inl inr _ _ _ _ _ (lall_form rt mt _ _ Hw)). apply IH. exact Ha.
     + apply andb_true_iff in H. destruct H as [Hw Ha]. apply (B_lights rt mt inl inr _ _ _ _ _ (lgroups_form rt mt _ _ Hw)). apply IH. exact Ha.
     + apply andb_true_iff in H. destruct H as [Hw Ha]. apply (B_lights rt mt inl inr _ _ _ _ _ (llocations_form rt mt _ _ Hw)). apply IH. exact Ha.
+    + apply andb_true_iff in H. destruct H as [H Ha]. apply andb_true_iff in H. destruct H as [Hs Hw].
+      apply (B_lights rt mt inl inr _ _ _ _ _ (lin_form rt mt _ _ _ Hs Hw)). apply IH. exact Ha.
   - subst inl. apply B_break.
   - apply B_block. clear Ea. induction ss as [|x r IHr]; [constructor|]. cbn [forallb] in H. apply andb_true_iff in H. destruct H as [Hx Hr].
     constructor; [apply IH; exact Hx|apply IHr; exact Hr].
